@@ -62,6 +62,10 @@ def async_part(ctx):
     from bubblecommon import bubble_tv
     n = ctx.pick(100, 1000)
     bubble_tv(ctx, "TestBatch", "batch", "Trace_Batch", "tv.cfg", "batch", {"n": n, "reps": 2}, silent=False)
+    bubble_tv(ctx, "TestBatch", "batch", "Trace_Batch", "tv.cfg", "batch perturbed", {"n": n, "reps": 1}, silent=False, perturb=True)
     bubble_tv(ctx, "TestMerge", "merge", "Trace_Merge", "tv.cfg", "merge", {"n": n, "reps": 1}, silent=False)
+    bubble_tv(ctx, "TestMerge", "merge", "Trace_Merge", "tv.cfg", "merge perturbed", {"n": n, "reps": 1}, silent=False, perturb=True)
     bubble_tv(ctx, "TestMapOrd", "parallel", "Trace_MapOrd", "tv.cfg", "mapstream", {"n": 2 * n}, silent=False)
+    bubble_tv(ctx, "TestMapOrd", "parallel", "Trace_MapOrd", "tv.cfg", "mapstream perturbed", {"n": n}, silent=False, perturb=True)
     bubble_tv(ctx, "TestPipe", "pipe", "Trace_Pipe", "tv.cfg", "pipe", {"n": n, "reps": 2})
+    bubble_tv(ctx, "TestPipe", "pipe", "Trace_Pipe", "tv.cfg", "pipe perturbed", {"n": n, "reps": 1}, perturb=True)
